@@ -111,7 +111,11 @@ func queries() []lookup.Query {
 
 func options(n int) []lookup.Opts {
 	t1, t2 := model.T1, model.T2
-	lf := func(o lookup.Opts) lookup.Opts { o.FilterOp, o.FilterField = filter.Latest, filter.PredicateField; return o }
+	t1h := model.T1.Add(500 * time.Millisecond)
+	lf := func(o lookup.Opts) lookup.Opts {
+		o.FilterOp, o.FilterField = filter.Latest, filter.PredicateField
+		return o
+	}
 	// the default, every single non-default field, and pairs of them (two option values that differ in one
 	// field while another one is set must still be different keys)
 	o := []lookup.Opts{
@@ -123,6 +127,10 @@ func options(n int) []lookup.Opts {
 		lf(lookup.Opts{}),
 		{LatestAnchor: true},
 		{MaxElements: 2, Offset: 1},
+		// two windows whose bounds fall in one wall-clock second (T1 and T1 + 500 ms): the first keeps the triples
+		// anchored at T1, the second does not
+		{Lower: &t1},
+		{Lower: &t1h},
 		{LatestAnchor: true, Upper: &t1},
 		{Lower: &t2},
 		{Lower: &t1, Upper: &t1},
@@ -668,7 +676,7 @@ func main() {
 	r.Assume("model states (content, per handle the cache-filling events since its last write; h2/h3 interchangeable) are used only to deduplicate; every state's shortest path is replayed on a fresh store, wrapper and handles")
 	r.Assume("answers are compared as sequences of structural keys, error text and channel-closed flag")
 
-	nopts := r.Pick(10, 18)
+	nopts := r.Pick(11, 20)
 	reads := grid(nopts)
 	tt := buildTruth(reads)
 	mk := modKeys(reads)
